@@ -3,6 +3,7 @@ package interp
 import (
 	"fmt"
 	"go/types"
+	"sync"
 
 	"verif/engine/internal/smt"
 )
@@ -59,14 +60,16 @@ type PathState struct {
 	Decisions int
 	Forced    int
 
-	Violations []Violation
-	Reached    map[string]int // assertion / reach labels hit on this path
-	Discharged int            // assertion queries answered unsat
-	Unknowns   int
-	Assumes    []string
-	Outside    []string
+	Violations       []Violation
+	Reached          map[string]int // assertion / reach labels hit on this path
+	Discharged       int            // assertions that held on the path (concretely true, or negation unsat)
+	SolverDischarged int            // ... of which decided by an unsat answer of the solver
+	Unknowns         int
+	Assumes          []string
+	Outside          []string
 
 	ActiveKnown           map[string]bool
+	Cross                 *CrossCheck
 	MaxViolationsPerLabel int
 	labelViolations       map[string]int // shared across paths by the explorer
 }
@@ -483,6 +486,8 @@ func (ps *PathState) Assert(cond value, label string) {
 				ps.model, ps.modelValid = save, sv
 			case smt.Unsat:
 				ps.Discharged++
+				ps.SolverDischarged++
+				ps.crossCheck(neg, smt.Unsat)
 			default:
 				ps.Unknowns++
 			}
@@ -550,5 +555,44 @@ func (ps *PathState) Assume(cond value) {
 		ps.assumeTerm(c.t, "")
 	default:
 		panic(abort{AbortUnsupported, fmt.Sprintf("Assume on %T", cond)})
+	}
+}
+
+// CrossCheck: a sample of the final (assertion) queries is re-asked of other
+// solvers as standalone scripts; a disagreement is an engine error.
+type CrossCheck struct {
+	Every     int      // re-ask every n-th discharged assertion query (0 = never)
+	Solvers   []string // e.g. "z3-new", "cvc5"
+	mu        sync.Mutex
+	n         int
+	Asked     int
+	Disagree  []string
+	TimeoutMs int
+}
+
+func (ps *PathState) crossCheck(extra *smt.Term, expect smt.Result) {
+	cc := ps.Cross
+	if cc == nil || cc.Every <= 0 {
+		return
+	}
+	cc.mu.Lock()
+	cc.n++
+	due := cc.n%cc.Every == 0
+	cc.mu.Unlock()
+	if !due {
+		return
+	}
+	ps.solver.Push()
+	ps.solver.Assert(extra)
+	script := ps.solver.Script()
+	ps.solver.Pop()
+	for _, kind := range cc.Solvers {
+		r, err := smt.OneShot(kind, script, cc.TimeoutMs)
+		cc.mu.Lock()
+		cc.Asked++
+		if err == nil && r != smt.Unknown && r != expect {
+			cc.Disagree = append(cc.Disagree, fmt.Sprintf("%s answers %v where z3 answered %v", kind, r, expect))
+		}
+		cc.mu.Unlock()
 	}
 }
